@@ -1,4 +1,5 @@
 import ErrModel.Proofs.RoundTrip
+import ErrModel.Proofs.TextEq
 /-
   C01 — Error text and cause-tree structure survive network transfer.
 
@@ -74,5 +75,25 @@ example : stable
           (.wrap [3,0] (.user ⟨b!"x/y/*y.W", b!"*y.W", 0, [], 0⟩ (b!"ctx"))
             (.multi [4,0] .join [.leaf [5,0] (.errorString (b!"a")), .barrier [6,0] ⟨b!"m", none⟩ (.leaf [7,0] .deadline)]))
           (.leaf [8,0] (.pkgFundamental (b!"sec") [⟨9, b!"main.g\n\tg.go:2"⟩]))))) = true := by decide
+
+
+/-! ## The Error() the formatting engine computes
+
+`text` above is the compositional Error(); the real `Error()` methods of `withPrefix`, the opaque
+wrapper and `Join` go through the formatting engine (`errText`).  The two agree wherever every
+visible wrapper sits over a regular cause (library `Join` nodes excepted, see Proofs/TextEq.lean),
+so the transfer theorems speak about the engine-computed Error() as well. -/
+
+/-- partial: library `Join` among the visible layers is not covered by the theorem (tied by the
+    correspondence streams only) -/
+theorem C01_engine_text_partial (e : Err) (h : EngOK e) : errText e = text e := errText_eq_text e h
+
+/-- the engine-computed Error() survives any number of hops -/
+theorem C01_engine_text_hops_partial (vf : Err → Str) (tag : Nat) (e : Err) (h : stable e = true) (he : EngOK e) (k : Nat) :
+    ∃ e', hopsFull vf tag k e = some e' ∧ (EngOK e' → errText e' = errText e) := by
+  obtain ⟨e', h1, ht⟩ := C01_text vf tag e h k
+  exact ⟨e', h1, fun he' => by rw [errText_eq_text e' he', ht, errText_eq_text e he]⟩
+
+/- non-vacuity: `exE_EngOK` in Props/C09.lean (the C09 witness meets the hypothesis). -/
 
 end ErrModel
